@@ -49,6 +49,7 @@ type Context struct {
 	chunkedData             []byte
 	chunkRemainingLength    uint64
 	arrayElementBitCount    int
+	arrayElementCount       uint64
 	moreChunksFollow        bool
 	arrayCompletionCallback func(*Context)
 
@@ -168,6 +169,7 @@ func (_this *Context) TryBuildFromCustomText(builder Builder, customType uint64,
 
 func (_this *Context) BeginArray(elementBitCount int, arrayCompletionCallback func(*Context)) {
 	_this.arrayElementBitCount = elementBitCount
+	_this.arrayElementCount = 0
 	_this.arrayCompletionCallback = arrayCompletionCallback
 	_this.chunkedData = _this.chunkedData[:0]
 }
@@ -177,6 +179,7 @@ func (_this *Context) ContinueMultiComponentArray(arrayCompletionCallback func(*
 func (_this *Context) BeginArrayChunk(length uint64, moreChunksFollow bool) {
 	// Chunk lengths are in elements, but the data arrives as bytes.
 	_this.chunkRemainingLength = common.ElementCountToByteCount(_this.arrayElementBitCount, length)
+	_this.arrayElementCount += length
 	_this.moreChunksFollow = moreChunksFollow
 	if !_this.moreChunksFollow && _this.chunkRemainingLength == 0 {
 		_this.arrayCompletionCallback(_this)
